@@ -205,16 +205,16 @@ class Adapter(EnvAdapter):
                 for tl in limits:
                     long = tl in (120, None)
                     out.append(_c(f"{gen}_{rw}_t{'default' if tl is None else tl}", gen, rw, tl,
-                                  episodes=10 if long else 16, max_steps=(tl or 120) + 3,
+                                  episodes=6 if long else 16, max_steps=(tl or 120) + 3,
                                   probe_every=2 if long else 1, policies=ALL_POL))
         for rw in ("dense", "sparse"):
             for tl in limits:
                 long = tl in (120, None)
                 out.append(_c(f"rooms_{rw}_t{'default' if tl is None else tl}", "levels", rw, tl, ROOMS,
-                              episodes=30 if long else 40, max_steps=(tl or 120) + 3,
+                              episodes=12 if long else 40, max_steps=(tl or 120) + 3,
                               probe_every=2 if long else 1, policies=ALL_POL))
             for name in ROOMS:
-                out.append(_c(f"{name}_{rw}_t30", "levels", rw, 30, (name,), episodes=15, max_steps=33,
+                out.append(_c(f"{name}_{rw}_t30", "levels", rw, 30, (name,), episodes=8, max_steps=33,
                               policies=ALL_POL))
             out.append(_c(f"island_{rw}_t7", "levels", rw, 7, ("island",), episodes=3, max_steps=10,
                           policies=["random"]))
@@ -242,7 +242,9 @@ class Adapter(EnvAdapter):
         ct = cfg["ctor"]
         return dict(num_rows=GRID, num_cols=GRID, n_boxes=N_BOXES,
                     time_limit=120 if ct["time_limit"] is None else ct["time_limit"],   # "defaults to 120"
-                    reward=ct["reward"], generator=ct["gen"])
+                    reward=ct["reward"],
+                    # a one-level LevelsGenerator is constant by construction: C10's "depends on the key" does not apply
+                    generator="single" if ct["gen"] == "levels" and len(ct["levels"]) == 1 else ct["gen"])
 
     # ---- policies ------------------------------------------------------------------------------
     def policies(self, tier):
